@@ -595,6 +595,22 @@ func rulesC18(c *Ctx) {
 				ok, _ = fg.MustPass(fg.Entry, fg.Exits, func(v int) bool { return v == bump })
 			}
 			c.Check(ok, name+":moves-generation", f, nil, "%s increments the generation under the cache lock on every path (a per-key invalidation must also defeat an in-flight read of that key, which is not cached yet)", name)
+			// … and drops what is cached: clear(cachedValues) for the whole-cache form, delete(cachedValues, key) for the keyed one
+			cvF := c.Field(pM, "methodCache", "cachedValues")
+			drop := -1
+			for _, call := range f.AllCalls(f.Body, false) {
+				switch {
+				case name == "invalidate" && f.BuiltinName(call) == "clear" && len(call.Args) == 1 && f.IsField(call.Args[0], cvF):
+					drop = fg.VertexOf(call)
+				case name == "invalidateKey" && f.BuiltinName(call) == "delete" && len(call.Args) == 2 && f.IsField(call.Args[0], cvF) && f.ObjOf(call.Args[1]) == types.Object(f.NonRecvParams()[0]):
+					drop = fg.VertexOf(call)
+				}
+			}
+			okDrop := drop >= 0 && f.heldLocal(fg.Node(drop))["methodCache.mu"]
+			if okDrop {
+				okDrop, _ = fg.MustPass(fg.Entry, fg.Exits, func(v int) bool { return v == drop })
+			}
+			c.Check(okDrop, name+":drops-cached-values", f, nil, "%s removes the cached value(s) under the cache lock on every path: after the notification was handled the next list/read goes to the server", name)
 		}
 	})
 
